@@ -6,7 +6,7 @@ from gen import N, L, NN, base, is_nn, unwrap_nn, tstr, vstr, venum, vlist, vobj
 from model import Model
 
 KINDS = {"in": "on_post_input_coercion", "arg": "on_argument_execution", "fld": "on_field_execution", "out": "on_pre_output_coercion"}
-LOCATIONS = "SCALAR | ENUM | ENUM_VALUE | INPUT_OBJECT | INPUT_FIELD_DEFINITION | ARGUMENT_DEFINITION | FIELD_DEFINITION | OBJECT | FIELD"
+LOCATIONS = "SCALAR | ENUM | ENUM_VALUE | INPUT_OBJECT | INPUT_FIELD_DEFINITION | ARGUMENT_DEFINITION | FIELD_DEFINITION | OBJECT | INTERFACE | UNION | FIELD"
 
 # ---- the tag universe (mirrors TartModel/Impl/Directives.lean) ---------------------------------
 def render(v):
@@ -131,6 +131,14 @@ class DirGen:
             {"name": "label", "args": [], "type": N(r.choice(["String", "S1"])), "dirs": uses(p=0.5), "res": {"k": "parentKey"}},
             {"name": "kind", "args": [], "type": N("E1"), "dirs": uses(logonly, p=0.4), "res": {"k": "parentKey"}}]}
         o2v = lambda: {"d": [["label", r.choice(["l1", "l2"])], ["kind", r.choice(["A", "B", "C", None])]]}
+        # an interface implemented by O2 and O3: abstract-type hooks run before the runtime type's hooks
+        o3 = {"name": "O3", "dirs": uses(p=0.6), "interfaces": ["I1"], "fields": [
+            {"name": "marks", "args": [], "type": N("String"), "dirs": [], "res": {"k": "parentKey"}},
+            {"name": "label", "args": [], "type": N("S1"), "dirs": uses(p=0.5), "res": {"k": "parentKey"}}]}
+        o2["interfaces"] = ["I1"]
+        o2["fields"][1]["type"] = N("S1")
+        self.abstracts = [{"name": "I1", "dirs": uses(p=0.8), "fields": [("marks", "String"), ("label", "S1")]}]
+        i1v = lambda: r.choice([None, {"d": [["_typename", "O2"], ["label", "il"], ["kind", "A"]]}, {"d": [["_typename", "O3"], ["label", "jl"]]}])
         o1 = {"name": "O1", "dirs": uses(p=0.6), "fields": [
             {"name": "argsSeen", "args": [], "type": N("String"), "dirs": [], "res": {"k": "parentKey"}},
             {"name": "marks", "args": [], "type": N("String"), "dirs": [], "res": {"k": "parentKey"}},
@@ -138,10 +146,11 @@ class DirGen:
             {"name": "kinds", "args": [], "type": L(N("E1")), "dirs": uses(logonly, p=0.4), "res": {"k": "parentKey"}},
             {"name": "child", "args": [], "type": N("O2"), "dirs": uses(p=0.5), "res": {"k": "parentKey"}},
             {"name": "children", "args": [], "type": L(N("O2")), "dirs": uses(p=0.3), "res": {"k": "parentKey"}},
+            {"name": "iface", "args": [], "type": N("I1"), "dirs": uses(p=0.4), "res": {"k": "parentKey"}},
             {"name": "echo", "args": args(r.randint(1, 2)), "type": N(r.choice(["String", "S2"])), "dirs": uses(p=0.5), "res": {"k": "renderArgs"}}]}
         def o1v():
             return {"d": [["name", r.choice(["n1", "n2", None])], ["kinds", r.choice([["A", "B"], [], None, ["C", None]])],
-                          ["child", r.choice([o2v(), None])], ["children", [o2v() for _ in range(r.randint(0, 2))]]]}
+                          ["child", r.choice([o2v(), None])], ["children", [o2v() for _ in range(r.randint(0, 2))]], ["iface", i1v()]]}
         qf = []
         for k in range(r.randint(2, 4)):
             qf.append({"name": f"f{k}", "args": args(r.randint(1, 3)), "type": N(r.choice(["String", "S1", "S2"])), "dirs": uses(p=0.6), "res": {"k": "renderArgs"}})
@@ -150,7 +159,8 @@ class DirGen:
         qf.append({"name": "e", "args": [], "type": N("E1"), "dirs": uses(logonly, p=0.5), "res": {"k": "const", "v": r.choice(["A", "B", "C", None])}})
         qf.append({"name": "es", "args": [], "type": L(N("E1")), "dirs": uses(logonly, p=0.5), "res": {"k": "const", "v": [r.choice(["A", "B", "C"]) for _ in range(r.randint(0, 3))]}})
         qf.append({"name": "s", "args": [], "type": N("S1"), "dirs": uses(p=0.5), "res": {"k": "const", "v": r.choice(["plain", None])}})
-        self.objs = [{"name": "Query", "dirs": [], "fields": qf}, o1, o2]
+        qf.append({"name": "ifaces", "args": [], "type": L(N("I1")), "dirs": uses(p=0.5), "res": {"k": "const", "v": [i1v() for _ in range(r.randint(1, 3))]}})
+        self.objs = [{"name": "Query", "dirs": [], "fields": qf}, o1, o2, o3]
 
     def tdef(self, n):
         for t in self.ins:
@@ -185,7 +195,7 @@ class DirGen:
             elif t["kind"] == "enum": ins.append({"kind": "enum", "name": t["name"], "dirs": U(t["dirs"]), "values": [{"name": v["name"], "dirs": U(v["dirs"])} for v in t["values"]]})
             else: ins.append({"kind": "input", "name": t["name"], "dirs": U(t["dirs"]), "fields": [F(f) for f in t["fields"]]})
         objs = [{"name": o["name"], "dirs": U(o["dirs"]), "fields": [{"name": f["name"], "args": [F(a) for a in f["args"]], "type": f["type"], "dirs": U(f["dirs"]), "res": f["res"]} for f in o["fields"]]} for o in self.objs]
-        return {"ins": ins, "objs": objs, "impls": self.impls, "query": "Query"}
+        return {"ins": ins, "objs": objs, "impls": self.impls, "query": "Query", "abstracts": [{"name": a["name"], "dirs": U(a["dirs"])} for a in self.abstracts]}
 
     def sdl(self):
         def D(us): return "".join(" @" + u["name"] + (f'(t: "{u["tag"]}")' if u["tag"] is not None else "") for u in us)
@@ -203,7 +213,10 @@ class DirGen:
                 if f["args"]:
                     a = "(" + ", ".join(f"{x['name']}: {tstr(x['type'])}" + (" = " + print_value(x["default"]) if x["default"] else "") + D(x["dirs"]) for x in f["args"]) + ")"
                 lines.append(f"  {f['name']}{a}: {tstr(f['type'])}{D(f['dirs'])}")
-            out.append(f"type {o['name']}{D(o['dirs'])} {{\n" + "\n".join(lines) + "\n}")
+            impl = (" implements " + " & ".join(o["interfaces"])) if o.get("interfaces") else ""
+            out.append(f"type {o['name']}{impl}{D(o['dirs'])} {{\n" + "\n".join(lines) + "\n}")
+        for a in self.abstracts:
+            out.append(f"interface {a['name']}{D(a['dirs'])} {{\n" + "\n".join(f"  {fn}: {ft}" for fn, ft in a["fields"]) + "\n}")
         return "\n".join(out)
 
 # ---- requests ---------------------------------------------------------------------------------
@@ -283,11 +296,17 @@ class ReqGen:
         for a in f["args"]:
             if is_nn(a["type"]) and not a["default"] or r.random() < 0.7:
                 args.append([a["name"], self.literal(a["type"])])
-        sub = []
+        return {"key": f["name"], "name": f["name"], "args": args, "dirs": self.quses(self.qnames(f)), "sub": self.sub_for(f, depth)}
+
+    def sub_for(self, f, depth):
         b = base(f["type"])
         tgt = next((o for o in self.g.objs if o["name"] == b), None)
-        if tgt: sub = self.selections(tgt, depth + 1)
-        return {"key": f["name"], "name": f["name"], "args": args, "dirs": self.quses(self.qnames(f)), "sub": sub}
+        if tgt: return self.selections(tgt, depth + 1)
+        ab = next((a for a in self.g.abstracts if a["name"] == b), None)
+        if ab:
+            o3 = next(o for o in self.g.objs if o["name"] == "O3")
+            return self.selections({"fields": [x for x in o3["fields"] if x["name"] in [n for n, _ in ab["fields"]]]}, depth + 1)
+        return []
 
     def qnames(self, f):
         # a marked enum name is no enum value any more: enum-typed fields only get log-only field directives
@@ -301,9 +320,8 @@ class ReqGen:
         if r.random() < 0.3:
             s = r.choice(out)
             f = next(x for x in od["fields"] if x["name"] == s["name"])
-            tgt = next((o for o in self.g.objs if o["name"] == base(f["type"])), None)
             again = {"key": s["key"], "name": s["name"], "args": s["args"], "dirs": self.quses(self.qnames(f), avoid=[u["name"] for u in s["dirs"]]),
-                     "sub": self.selections(tgt, depth + 1) if tgt else []}
+                     "sub": self.sub_for(f, depth)}
             out.append(again)
         return out
 
@@ -342,7 +360,7 @@ async def explore(tier, seed, m):
     rng = random.Random(seed * 131 + 13)
     st = {"evaluations": 0, "nontrivial": set(), "problems": [], "disagreements": [], "unsupported": 0, "hook_calls": collections.Counter(), "max_nesting": 0,
           "samples": [], "with_variables": 0, "merged_nodes": 0, "engine_errors": 0}
-    nschemas, nreq = (30, 80) if tier == "quick" else (300, 150)
+    nschemas, nreq = (fw.scale(30), 80) if tier == "quick" else (fw.scale(300), 150)
     t0 = time.time()
     for si in range(nschemas):
         if time.time() - t0 > (100 if tier == "quick" else 1500): break
@@ -426,9 +444,9 @@ if __name__ == "__main__":
                      "first_disagreement": st["disagreements"][:1], "requests_checked": st["evaluations"]}, no_input=True)
     cov = fw.proof_coverage(b, {
         "evaluations": st["evaluations"], "distinct_nontrivial": len(st["nontrivial"]),
-        "rule": "generated schemas decorated with 0-3 tagging directives (two marking all hooks, one marking a random subset of hooks, two log-only; tag argument literal or defaulted) on scalars, enums (log-only at type level), enum values, input objects, input fields, arguments, fields and object types; requests with arguments as literals, whole variables, variables nested in lists / input objects, omitted (SDL defaults), nulls, single values for lists; query-side field directives with literal / variable / defaulted tags; repeated response keys with different directives; compared with the Lean model: `data` (tags are non-commuting: nesting and stage order are visible) and the multiset of hook invocations (kind, directive, coerced tag, phase, value seen); non-trivial = at least two hook invocations",
+        "rule": "generated schemas decorated with 0-3 tagging directives (two marking all hooks, one marking a random subset of hooks, two log-only; tag argument literal or defaulted) on scalars, enums (log-only at type level), enum values, input objects, input fields, arguments, fields, object types and interfaces (abstract-type hooks before the runtime type's hooks); requests with arguments as literals, whole variables, variables nested in lists / input objects, omitted (SDL defaults), nulls, single values for lists; query-side field directives with literal / variable / defaulted tags; repeated response keys with different directives; compared with the Lean model: `data` (tags are non-commuting: nesting and stage order are visible) and the multiset of hook invocations (kind, directive, coerced tag, phase, value seen); non-trivial = at least two hook invocations",
         "hook_invocations_by_kind": dict(st["hook_calls"]), "deepest_hook_nesting": st["max_nesting"], "requests_with_variables": st["with_variables"],
         "outside_model_universe": st["unsupported"], "documents_repeated_with_other_variables": st.get("repeated_documents", 0), "requests_with_engine_errors": st["engine_errors"],
         "correspondence": {"disagreements": len(st["disagreements"])}, "problems": len(st["problems"]), "samples": st["samples"] or [{"note": "none"}]})
-    sys.exit(v.finish("proof", cov, ["hooks are tagging hooks that call the next stage exactly once and never raise; abstract types (interface / union), introspection, schema-level and collection hooks (on_schema_execution, on_field_collection, …) are not modelled: partial",
+    sys.exit(v.finish("proof", cov, ["hooks are tagging hooks that call the next stage exactly once and never raise; union types (same coercer as the modelled interfaces), introspection, schema-level and collection hooks (on_schema_execution, on_field_collection, …) are not modelled: partial",
                                      "requests with coercion errors are outside the model (skipped)"]))
